@@ -525,6 +525,9 @@ class ArrV:
     def __init__(self, data=()):
         self.data = list(data)
 
+    def m_isinstance(self, interp, c):
+        return isinstance(c, Ext) and c.name == "numpy.ndarray"
+
     def m_getitem(self, interp, idx, node):
         if isinstance(idx, MaskV):
             if len(idx.bits) != len(self.data):
@@ -650,8 +653,10 @@ class FrameV:
             return (self.nrows(), len(self.cols))
         if attr == "index":
             return IndexV(self.labels())
-        if attr in ("copy", "pop"):
+        if attr in ("copy", "pop", "to_csv"):
             return BoundExt(self, attr)
+        if attr == "loc":
+            return FrameLoc(self)
         raise Undecided("DataFrame.%s" % attr)
 
     def m_method(self, interp, name, args, kwargs, node):
@@ -661,6 +666,21 @@ class FrameV:
             if args[0] not in self.cols:
                 _raise("KeyError", repr(args[0]), node)
             return SeriesV(self.cols.pop(args[0]), self.index)
+        if name == "to_csv":
+            vfs = getattr(interp, "vfs", None)
+            path = args[0] if args else kwargs.get("path_or_buf")
+            if vfs is None or not isinstance(path, str) or set(kwargs) - {"path_or_buf", "index", "header", "sep"}:
+                raise Undecided("DataFrame.to_csv with these arguments")
+            index, header, sep = kwargs.get("index", True), kwargs.get("header", True), kwargs.get("sep", ",")
+            if not isinstance(index, bool) or not isinstance(header, bool):
+                raise Undecided("DataFrame.to_csv with non-boolean index / header")
+            names = ([getattr(self, "index_name", None) or ""] if index else []) + [str(c) for c in self.cols]
+            lines = [sep.join(names)] if header else []
+            for i, lab in enumerate(self.labels()):
+                cells = ([lab] if index else []) + [self.cols[c][i] for c in self.cols]
+                lines.append(sep.join(interp.to_str(x) if x is not None else "" for x in cells))
+            vfs.files[path] = "\n".join(lines) + "\n"
+            return None
         raise Undecided("DataFrame.%s" % name)
 
     def m_len(self, interp):
@@ -668,6 +688,33 @@ class FrameV:
 
     def m_isinstance(self, interp, c):
         return isinstance(c, Ext) and c.name == "pandas.DataFrame"
+
+
+class FrameLoc:
+    """``frame.loc[rows, column]`` for a full-slice / single row label and one column name."""
+
+    def __init__(self, frame):
+        self.f = frame
+
+    def m_getitem(self, interp, idx, node):
+        f = self.f
+        if not (isinstance(idx, tuple) and len(idx) == 2):
+            raise Undecided("frame.loc[%r]" % (idx,))
+        rows, col = idx
+        if isinstance(col, (IndexV, list)):
+            sub = f.m_getitem(interp, col, node)
+            return sub if rows == slice(None, None, None) else FrameLoc(sub).m_getitem(interp, (rows, slice(None, None, None)), node)
+        if col == slice(None, None, None) and rows == slice(None, None, None):
+            return f
+        if col not in f.cols:
+            _raise("KeyError", repr(col), node)
+        if rows == slice(None, None, None):
+            return SeriesV(f.cols[col], f.index)
+        labs = f.labels()
+        hits = [i for i, l in enumerate(labs) if l == rows and type(l) is type(rows)]
+        if len(hits) != 1:
+            _raise("KeyError", repr(rows), node)
+        return f.cols[col][hits[0]]
 
 
 class TableV:
@@ -828,8 +875,30 @@ def make_externals(vfs, listing=None):
     def _read_csv(interp, args, kwargs, node):
         path = args[0]
         sep = kwargs.get("sep", ",")
-        if kwargs.get("header", "infer") is not None:
-            raise Undecided("read_csv with a header row")
+        hdr = kwargs.get("header", "infer")
+        if hdr in (0, "infer"):
+            f = vfs.lookup(path)
+            if f is None:
+                _raise("FileNotFoundError", path, node)
+            if set(kwargs) - {"sep", "header"}:
+                raise Undecided("read_csv options %s" % sorted(set(kwargs) - {"sep", "header"}))
+            lines = [l for l in (f.text() if isinstance(f, FileW) else f).splitlines() if l.strip()]
+            names, seen = [], {}
+            for nme in lines[0].split(sep):
+                nme = nme.strip() or "Unnamed: %d" % len(names)
+                if nme in seen:  # pandas mangles duplicate column names
+                    seen[nme] += 1
+                    nme = "%s.%d" % (nme, seen[nme])
+                else:
+                    seen[nme] = 0
+                names.append(nme)
+            fr = FrameV()
+            rows = [[to_float(c) if to_float(c) is not None else c.strip() for c in l.split(sep)] for l in lines[1:]]
+            for j, nme in enumerate(names):
+                fr.cols[nme] = [r[j] if j < len(r) else None for r in rows]
+            return fr
+        if hdr is not None:
+            raise Undecided("read_csv(header=%r)" % (hdr,))
         f = vfs.lookup(path)
         if f is None:
             _raise("FileNotFoundError", path, node)
@@ -851,7 +920,12 @@ def make_externals(vfs, listing=None):
     def _wrap(interp, args, kwargs, node):
         if not isinstance(args[0], str):
             raise Undecided("textwrap.wrap of a non-string")
-        return textwrap.wrap(args[0], **{k: v for k, v in kwargs.items() if k == "width"})
+        return textwrap.wrap(args[0], **{k: v for k, v in kwargs.items() if k in ("width", "initial_indent", "subsequent_indent")})
+
+    def _fill(interp, args, kwargs, node):
+        if not isinstance(args[0], str):
+            raise Undecided("textwrap.fill of a non-string")
+        return textwrap.fill(args[0], **{k: v for k, v in kwargs.items() if k in ("width", "initial_indent", "subsequent_indent")})
 
     def _join(interp, args, kwargs, node):
         if not all(isinstance(a, str) for a in args):
@@ -904,6 +978,7 @@ def make_externals(vfs, listing=None):
         "numpy.array": _asarray,
         "itertools.zip_longest": _zip_longest,
         "textwrap.wrap": _wrap,
+        "textwrap.fill": _fill,
         "os.makedirs": lambda i, a, k, n: None,
         "os.path.join": _join,
         "os.path.exists": lambda i, a, k, n: True,
